@@ -135,7 +135,8 @@ class SModel(KModel):
         a0 = deref_all(args[0]) if args else None
         nd = (cal.get('crate') == 'ndarray') or ('ndarray::' in (cal.get('resolved') or ''))
         # ---- crate-local calls we summarise
-        if name.endswith('CubicSpline::thomas') and self.scn.get('summarise_thomas', True):
+        lib = self.interp.lib
+        if lib.is_role(name, 'CubicSpline::thomas') and self.scn.get('summarise_thomas', True):
             k, up, mid, low, rhs = [deref_all(a) for a in args]
             self.thomas_calls.append({'k': k, 'up': up, 'mid': mid, 'low': low, 'rhs': rhs, 'where': line_of(e)})
             if isinstance(k, Obj) and k.kind == 'arr2':
@@ -143,13 +144,13 @@ class SModel(KModel):
                 k.d['t'].store.clear()
                 k.d['t'].generic = []
             return Unit()
-        if name.endswith('CubicSpline::solve_for_k') and self.scn.get('summarise_solve', False):
+        if lib.is_role(name, 'CubicSpline::solve_for_k') and self.scn.get('summarise_solve', False):
             self.solve_calls.append({'args': [deref_all(a) for a in args], 'where': line_of(e)})
             k = deref_all(args[0])
             if isinstance(k, Obj) and k.kind == 'arr2':
                 k.d['t'].sym = 'k'
             return OK(Unit()) if self.scn.get('solve', 'ok') == 'ok' else self._err()
-        if name.endswith('CubicSpline::solve_for_k_individual') and self.scn.get('summarise_solve', False):
+        if lib.is_role(name, 'CubicSpline::solve_for_k_individual') and self.scn.get('summarise_solve', False):
             self.individual_calls.append({'args': [deref_all(a) for a in args], 'where': line_of(e)})
             k = deref_all(args[0])
             if isinstance(k, Obj) and k.kind == 'arr2':
@@ -330,8 +331,10 @@ class SModel(KModel):
             if not is_axis0(args[1]):
                 raise Unsupported("len_of an axis other than Axis(0) of a lane array", e)
             return Num(a.d['hi'] - a.d['lo'])
-        if last == 'raw_dim':
+        if last in ('raw_dim', 'dim'):
             return Obj('ddim', n=a.d['hi'] - a.d['lo'])
+        if last == 'shape':
+            return Ref(ValPlace(Obj('ddim', n=a.d['hi'] - a.d['lo'])))
         if last == 'ndim':
             return Num(Rat.atom('ndim'))
         if last == 'slice_axis_inplace':
